@@ -245,6 +245,58 @@ def rule_output(program, ctx):
                 ctx.ok(rid, s, "HTTP body guarded by check_output")
 
 
+def rule_context(program, ctx, prop=P, rid="C14.context"):
+    ctx.rule(
+        rid,
+        "the context an output validator decides on belongs to the connection that receives the event: at every check_output(event, <context>) call the context is a dict "
+        "built in that function (a literal, or a local bound once to a literal) whose `auth_token` / `client_id` entries are the subscription's / the request's own - "
+        "never an object shared between subscriptions (class attribute, module global, cached dict), through which one connection's token authorises another's stream",
+        floor=3,
+    )
+    n = 0
+    for fn in {id(f): f for f in program.functions.values()}.values():
+        if True:
+            aliases = _check_output_aliases(fn)
+            for c in walk_no_nested(fn):
+                if not (isinstance(c, ast.Call) and (dotted(c.func) in aliases or dotted(c.func).endswith(".check_output")) and len(c.args) >= 2):
+                    continue
+                n += 1
+                arg = c.args[1]
+                src = arg
+                if isinstance(arg, ast.Name):
+                    sts = [s_ for s_ in stores_of(fn, arg.id)]
+                    if len(sts) != 1 or not isinstance(sts[0], ast.Assign):
+                        ctx.bad(finding_at(prop, rid, c, f"{qual_of(fn)}: the validator context `{arg.id}` is not bound exactly once in this function ({len(sts)} bindings)"))
+                        continue
+                    src = sts[0].value
+                    muts = [x for x in walk_no_nested(fn) if isinstance(x, (ast.Assign, ast.AugAssign)) and any(isinstance(t, ast.Subscript) and dotted(t.value) == arg.id for t in (x.targets if isinstance(x, ast.Assign) else [x.target]))]
+                else:
+                    muts = []
+                if isinstance(src, ast.Call) and call_name(src) == "dict" and not src.args and all(k.arg for k in src.keywords):
+                    src = ast.Dict(keys=[ast.Constant(value=k.arg) for k in src.keywords], values=[k.value for k in src.keywords])
+                if not isinstance(src, ast.Dict):
+                    ctx.bad(finding_at(prop, rid, c, f"{qual_of(fn)}: the validator context is `{ast.unparse(src)[:60]}`, not a dict built for this delivery: if the object is shared, the "
+                                       "auth_token of whichever subscription wrote it last decides for every other connection"))
+                    continue
+                keys = {k.value: v for k, v in zip(src.keys, src.values) if isinstance(k, ast.Constant)}
+                for m_ in muts:
+                    t = (m_.targets if isinstance(m_, ast.Assign) else [m_.target])[0]
+                    if isinstance(t.slice, ast.Constant):
+                        keys[t.slice.value] = m_.value
+                tok = keys.get("auth_token")
+                okv = tok is not None and (isinstance(tok, ast.Constant) and tok.value is None) or tok is not None and (dotted(tok) in ("self.auth_token", "auth_token", "req.context.auth_token") or (isinstance(tok, ast.Call) and "auth" in ast.unparse(tok)))
+                if not okv and tok is not None:
+                    # HTTP: the request's own token, however it is spelt
+                    okv = not any(isinstance(x, ast.Attribute) and isinstance(x.value, ast.Name) and x.value.id[:1].isupper() for x in ast.walk(tok)) and not isinstance(tok, ast.Constant)
+                if okv:
+                    ctx.ok(rid, c, f"{qual_of(fn)}: fresh context, auth_token = {ast.unparse(tok)[:40]}")
+                else:
+                    ctx.bad(finding_at(prop, rid, c, f"{qual_of(fn)}: the validator context carries {'no auth_token' if tok is None else 'auth_token = ' + ast.unparse(tok)[:40]}: the output "
+                                       "validator cannot tell who receives the event"))
+    if not n:
+        raise AnalysisError("no check_output(event, context) call found")
+
+
 def rule_can_do(program, ctx):
     rid = ctx.rule(
         "C14.can_do",
@@ -422,6 +474,38 @@ def rule_roles(program, ctx):
         ctx.bad(finding_func(P, rid, g, "get_auth_roles no longer reads auth.roles by pubkey with the default-roles fallback", text="def get_auth_roles(...)"))
 
 
+def rule_authkey(program, ctx, prop=P, rid="C14.authkey"):
+    ctx.rule(
+        rid,
+        "one row per pubkey in the auth table: every definition of a table named `auth` in the package - storage.get_metadata, the alembic revisions' create_table and "
+        "any `copy_from`/reflected definition a batch migration rebuilds the table from - declares `pubkey` with primary_key=True (or a unique constraint on it). "
+        "set_auth_roles replaces roles through INSERT -> IntegrityError -> UPDATE; without the key a second assignment adds a row and the first row keeps authorising",
+        floor=2,
+    )
+    n = 0
+    for m in program.modules.values():
+        if not m.name.startswith("nostr_relay"):
+            continue
+        for c in ast.walk(m.tree):
+            if not (isinstance(c, ast.Call) and call_name(c).split(".")[-1] in ("Table", "create_table") and c.args and isinstance(c.args[0], ast.Constant) and c.args[0].value == "auth"):
+                continue
+            n += 1
+            cols = [a for a in c.args if isinstance(a, ast.Call) and call_name(a).split(".")[-1] == "Column" and a.args and isinstance(a.args[0], ast.Constant)]
+            pk = next((a for a in cols if a.args[0].value == "pubkey"), None)
+            keyed = pk is not None and any(k.arg in ("primary_key", "unique") and isinstance(k.value, ast.Constant) and k.value.value is True for k in pk.keywords)
+            keyed = keyed or any(isinstance(a, ast.Call) and call_name(a).split(".")[-1] in ("PrimaryKeyConstraint", "UniqueConstraint") and any(isinstance(x, ast.Constant) and x.value == "pubkey" for x in a.args) for a in c.args)
+            if not cols:
+                ctx.info(rid, c, "auth table referenced without column list") if hasattr(ctx, "info") else None
+                continue
+            if keyed:
+                ctx.ok(rid, c, f"{m.name.split('.')[-1]}: auth.pubkey is the key")
+            else:
+                ctx.bad(finding_at(prop, rid, c, f"{m.name.split('.')[-1]} defines table `auth` without a primary key / unique constraint on pubkey: a table (re)built from this definition "
+                                   "accepts a second row per pubkey, set_auth_roles' INSERT no longer raises, and roles that were revoked keep authorising"))
+    if n < 2:
+        raise AnalysisError("definitions of the auth table not found (expected get_metadata and the initial alembic revision)")
+
+
 def rule_config(program, ctx, prop=P, rid="C14.config"):
     ctx.rule(
         rid,
@@ -534,9 +618,11 @@ def run(program, ctx):
 
     rule_awaited(program, ctx, P, ANCHORS)
     rule_roles(program, ctx)
+    rule_authkey(program, ctx)
     rule_save(program, ctx)
     rule_query(program, ctx)
     rule_output(program, ctx)
+    rule_context(program, ctx)
     rule_can_do(program, ctx)
     rule_config(program, ctx)
     rule_validator_object(program, ctx)
